@@ -168,5 +168,10 @@ def run(ctx):
         ctx.ok("C09.R-str-guard", {"str_slicing_sites": n_str["n"], "discharged": n_str["ok"]}, n=n_str["ok"], sample=True)
     ctx.extra["str_slicing_sites"] = dict(n_str)
     ctx.floor("str slicing sites under the parser entry points", n_str["n"], 50)
+    if ctx.tier == "thorough":
+        from sa import xref
+        xref.cross_check(ctx, F, ["string_slice", "unwrap_used", "expect_used", "indexing_slicing", "panic"])
+        from rules import selftest
+        selftest.run(ctx, ["str-guard"])
     ctx.assume("regex and std functions outside the panicking-callee table are total; allocation does not fail")
     ctx.assume("tokens handed to expansion were obtained by parsing (HandRangeToken::new with arbitrary fields is outside the property)")
